@@ -11,6 +11,7 @@ package gateway
 //@ props C13
 //@ ensures exact_split: result1 == canaryPercent && result0 == 100 - canaryPercent
 //@ pure
+//@ replay canary_weight
 
 // the first backendRef of the rule that is the Service `serviceName` (a copy of it), or nil when there is none
 //@ func getServiceBackendRef
